@@ -101,7 +101,7 @@ def judge(P, w, before, after, outcome, cfg, snap_diff, target_rel):
         dev("comments-differ", "comment tokens differ: before %d after %d; lost %r" % (len(cb), len(ca), lost[:3]),
             comments_before=cb, comments_after=ca)
     P.monitor("lines.compared")
-    for v in astcmp.line_identity_violations(before, after, before_tree)[:3]:
+    for v in astcmp.line_identity_violations(before, after, before_tree, after_tree)[:3]:
         dev("line-changed." + v["kind"], "a line outside definition headers/docstrings changed: %r" % (v,), line=v)
     return True
 
